@@ -602,3 +602,153 @@ func c15gLeafBehaviourTable(c *eng.Ctx) {
 	}
 	c.Floor(nil, "writers of issuerEntry.LeafNotAfterBehavior", n, 3)
 }
+
+// ---------------------------------------------------------------------------
+// "the calls of T in f", independent of how the call is written (ROBUST.md).
+
+// c15Site is one call of a target function that f certainly performs at At.
+type c15Site struct {
+	Call ssa.CallInstruction // the call of the target itself (in f, or in a closure / helper f calls)
+	At   ssa.Instruction     // the instruction of f that stands for it (== Call when direct)
+	Name string              // resolved callee name
+	args []ssa.Value         // receiver first (a bound receiver included)
+}
+
+// Arg is argument i of the call as a value of f's frame where that is evident:
+// a variable the closure captured is replaced by the one value f stores into it.
+func (s c15Site) Arg(i int) ssa.Value {
+	if i >= len(s.args) {
+		return nil
+	}
+	v := s.args[i]
+	for d := 0; d < 4; d++ {
+		ld, ok := v.(*ssa.UnOp)
+		if !ok || ld.Op != token.MUL {
+			break
+		}
+		if _, isFree := ld.X.(*ssa.FreeVar); !isFree {
+			break
+		}
+		cell := nfCellOf(ld.X)
+		if cell == nil {
+			break
+		}
+		vals := nfStoresTo(cell)
+		if len(vals) != 1 {
+			break
+		}
+		v = vals[0]
+	}
+	return v
+}
+
+// c15FuncTargets: the functions a function-typed value may denote: a function / closure / bound
+// method, or every value assigned to the local variable it is read from (fn := A; if c { fn = B }).
+// nil when any candidate is not evident.
+func c15FuncTargets(v ssa.Value) []*ssa.Function {
+	if fn, _ := nfFuncValue(v); fn != nil {
+		return []*ssa.Function{fn}
+	}
+	if ph, isPhi := v.(*ssa.Phi); isPhi {
+		var out []*ssa.Function
+		for _, l := range c15phiLeaves(ph) {
+			fn, _ := nfFuncValue(l)
+			if fn == nil {
+				return nil
+			}
+			out = append(out, fn)
+		}
+		return out
+	}
+	ld, ok := v.(*ssa.UnOp)
+	if !ok || ld.Op != token.MUL {
+		return nil
+	}
+	cell := nfCellOf(ld.X)
+	if cell == nil {
+		return nil
+	}
+	var out []*ssa.Function
+	for _, sv := range nfStoresTo(cell) {
+		fn, _ := nfFuncValue(sv)
+		if fn == nil {
+			return nil
+		}
+		out = append(out, fn)
+	}
+	return out
+}
+
+// c15Sites: the calls in f whose resolved callee matches pat — written directly, through a bound
+// method value, or one level down: through a local closure (also a closure variable assigned one
+// of several closures) or an unexported function of the same package, provided EVERY candidate
+// performs such a call on every path to its normal returns. Then the call of the closure/helper
+// in f stands for the target call. What cannot be resolved is not a site (the caller's floor reports it).
+func c15Sites(f *ssa.Function, pat string) []c15Site {
+	re := regexp.MustCompile(pat)
+	var out []c15Site
+	for _, ci := range nfAllCalls(f) {
+		nc := nfCallOf(ci)
+		if re.MatchString(nc.Name) {
+			out = append(out, c15Site{Call: ci, At: ci, Name: nc.Name, args: nc.Args})
+			continue
+		}
+		cl, plain := ci.(*ssa.Call)
+		if !plain || cl.Call.IsInvoke() {
+			continue
+		}
+		if _, bi := cl.Call.Value.(*ssa.Builtin); bi {
+			continue
+		}
+		targets := c15FuncTargets(cl.Call.Value)
+		if len(targets) == 0 {
+			continue
+		}
+		var inner []c15Site
+		all := true
+		for _, g := range targets {
+			if g == nil || len(g.Blocks) == 0 || g.Synthetic != "" || g == f {
+				all = false
+				break
+			}
+			local := g.Parent() != nil && eng.TopFunc(g) == eng.TopFunc(f)
+			samePkg := g.Parent() == nil && g.Pkg != nil && g.Pkg == eng.TopFunc(f).Pkg && !g.Object().Exported()
+			if !local && !samePkg {
+				all = false
+				break
+			}
+			var here []c15Site
+			var ats []ssa.Instruction
+			for _, gi := range nfAllCalls(g) {
+				if _, isCall := gi.(*ssa.Call); !isCall {
+					continue
+				}
+				if gn := nfCallOf(gi); re.MatchString(gn.Name) {
+					here = append(here, c15Site{Call: gi, At: ci, Name: gn.Name, args: gn.Args})
+					ats = append(ats, gi)
+				}
+			}
+			if len(here) == 0 || eng.Reach(eng.Query{Fn: g, Barriers: ats, Target: nfIsNormalReturn}) != nil {
+				all = false
+				break
+			}
+			inner = append(inner, here...)
+		}
+		if all {
+			out = append(out, inner...)
+		}
+	}
+	return out
+}
+
+func c15SiteAts(ss []c15Site) []ssa.Instruction {
+	var out []ssa.Instruction
+	seen := map[ssa.Instruction]bool{}
+	for _, s := range ss {
+		if !seen[s.At] {
+			seen[s.At] = true
+			out = append(out, s.At)
+		}
+	}
+	return out
+}
